@@ -57,7 +57,7 @@ func args4(scratch string) map[string][]string {
 	os.WriteFile(filepath.Join(scratch, "c01-leases4.txt"), []byte("02:00:00:00:5a:01 10.10.10.7\n"), 0o644)
 	return map[string][]string{
 		"lease_time": {"3600s"}, "server_id": {"10.10.10.1"}, "dns": {"8.8.8.8", "8.8.4.4"}, "router": {"192.168.1.1"},
-		"netmask": {"255.255.255.0"}, "range": {filepath.Join(scratch, "c01-leases.sqlite"), "10.10.10.100", "10.10.10.103", "60s"},
+		"netmask": {"255.255.255.0"}, "range": {filepath.Join(scratch, "c01-leases.sqlite"), "10.10.10.254", "10.10.11.1", "60s"},
 		"file": {filepath.Join(scratch, "c01-leases4.txt")}, "mtu": {"1500"}, "searchdomains": {"a.example", "b.example"},
 		"staticroute": {"10.0.0.0/8,10.10.10.1"}, "ipv6only": {"300s"}, "autoconfigure": {"1"}, "nbp": {"tftp://10.0.0.1/boot"}, "sleep": {"0s"},
 	}
